@@ -81,7 +81,7 @@ fn legacy_stores() -> Vec<Legacy> {
     }
     // (a sequence of u64::MAX is not reachable on a channel and would overflow the reply id of the next
     // recovery; the largest key used is 2^63 + 11)
-    out.push(Legacy { packets: vec![(1, 1, 5, PS::TimedOut), ((1 << 32) + 5, (1 << 32) + 5, 6, PS::AckFailure), ((1 << 63) + 11, (1 << 63) + 11, 7, PS::Sent)], replies: vec![((1 << 63) + 12, 9)] });
+    out.push(Legacy { packets: vec![(1, 1, 5, PS::TimedOut), ((1 << 32) + 5, (1 << 32) + 5, 6, PS::AckFailure), ((1 << 63) + 11, (1 << 63) + 11, 7, PS::Sent)], replies: vec![((1 << 40) + 3, 9)] });
     out
 }
 
